@@ -386,7 +386,31 @@ func runC18(r *rt.Run, tier string) {
 			r.Violate("C18/value-and-error", key, "returned %s together with error %q (input %q)", solo[i].Both, clip(solo[i].Err, 100), clip(string(c.Input), 150))
 		}
 		if c.FailAt >= 0 && solo[i].HitEIO && solo[i].Err == "" {
-			r.Violate("C18/io-error-swallowed", key, "stream failed with EIO at %d of %d but the call returned nil error", c.FailAt, len(c.Input))
+			// The stream reported EIO and the call returned nil.  That is only
+			// wrong if the result differs from what the intact stream gives (a
+			// call that had everything it needed before the failure point may
+			// succeed: an operation may fail, never succeed with wrong data).
+			clean := c
+			clean.FailAt = -1
+			ref := c18Solo(r, clean, fmt.Sprintf("intact%d", i))
+			if ref.Value != solo[i].Value || ref.Err != "" {
+				r.Violate("C18/io-error-swallowed", key, "stream failed with EIO at %d of %d, the call returned nil error and a result that differs from the intact stream's: %s vs %s (err %q)", c.FailAt, len(c.Input), clip(solo[i].Value, 200), clip(ref.Value, 200), ref.Err)
+			} else {
+				r.Probe("eio-after-the-call-had-all-it-needed")
+			}
+		}
+		if isStream(c.Entry) && c.FailAt < 0 {
+			// the outcome depends only on the bytes, not on how the stream hands them out
+			alt := c
+			alt.Chunk = []int{1, 0, 4096, 7}[t.Draw(4, "c18.altchunk")]
+			alt.EOFTog = !c.EOFTog
+			if alt.Chunk != c.Chunk {
+				other := c18Solo(r, alt, fmt.Sprintf("altdelivery%d", i))
+				if other.Value != solo[i].Value || other.Err != solo[i].Err {
+					r.Violate("C18/result-depends-on-delivery", key, "the same %d bytes delivered %d bytes per read: value=%s err=%q; delivered %d bytes per read: value=%s err=%q", len(c.Input), c.Chunk, clip(solo[i].Value, 200), solo[i].Err, alt.Chunk, clip(other.Value, 200), other.Err)
+				}
+				r.Probe("same-bytes-other-delivery")
+			}
 		}
 		if solo[i].Err == "" {
 			r.Probe("call-succeeded")
@@ -511,5 +535,5 @@ func init() {
 		},
 		Assumptions: []string{"inputs are grammar-derived seeds under tape-driven mutation and raw bytes; coverage-guided fuzzing (named in the quantifier) is a different technique", "value-typed results (version.Version, structs filled through Unmarshal) are exempt from the value-or-error clause: the value always exists", "results are compared through their JSON rendering"},
 	})
-	propProbes["C18"] = []string{"call-succeeded", "call-returned-error", "calls-interleaved-inside-parsers"}
+	propProbes["C18"] = []string{"same-bytes-other-delivery", "call-succeeded", "call-returned-error", "calls-interleaved-inside-parsers"}
 }
